@@ -118,6 +118,7 @@ type Contracts struct {
 	Preds     map[string]*PredDef      // by pkgpath + "." + name, and by bare name
 	Expect    map[string]int           // property -> minimum obligations
 	GhostMaps map[string]bool
+	Devirt    map[string]string // interface type (pkgpath.Name) -> concrete struct type (pkgpath.Name); pointer receiver
 	Immutable map[string]*ImmutableSpec // field family prefix (T.f) -> spec
 	Guarded   map[string]*GuardedSpec   // field family prefix (T.f) -> spec
 	Files     []string
@@ -127,7 +128,7 @@ type Contracts struct {
 var clauseKeywords = map[string]bool{
 	"pred": true, "func": true, "prop": true, "requires": true, "ensures": true, "modifies": true,
 	"loop": true, "pure": true, "inline": true, "trusted": true, "assert": true, "assume": true, "after": true,
-	"immutable": true, "guarded": true, "arith": true, "consumes": true, "implements": true, "let": true, "rely": true, "expect-obligations": true, "iface": true, "nobody": true, "ghostmap": true, "ghost": true,
+	"devirtualize": true, "immutable": true, "guarded": true, "arith": true, "consumes": true, "implements": true, "let": true, "rely": true, "expect-obligations": true, "iface": true, "nobody": true, "ghostmap": true, "ghost": true,
 }
 
 var tagRe = regexp.MustCompile(`^\[([^\]]*)\]\s*`)
@@ -160,7 +161,7 @@ var contractPkgs = map[string]string{
 }
 
 func LoadContracts(repo, mirror string) (*Contracts, error) {
-	c := &Contracts{Funcs: map[string]*FuncContract{}, Preds: map[string]*PredDef{}, Expect: map[string]int{}, Sources: map[string]string{}, GhostMaps: map[string]bool{}, Immutable: map[string]*ImmutableSpec{}, Guarded: map[string]*GuardedSpec{}}
+	c := &Contracts{Funcs: map[string]*FuncContract{}, Preds: map[string]*PredDef{}, Expect: map[string]int{}, Sources: map[string]string{}, GhostMaps: map[string]bool{}, Devirt: map[string]string{}, Immutable: map[string]*ImmutableSpec{}, Guarded: map[string]*GuardedSpec{}}
 	var suffixes []string
 	for s := range contractPkgs {
 		suffixes = append(suffixes, s)
@@ -266,6 +267,15 @@ func (c *Contracts) parseFile(path, pkgPath string) error {
 				n, _ := strconv.Atoi(f[2])
 				c.Expect[f[0]] = n
 			}
+			continue
+		case "devirtualize":
+			// devirtualize <Interface> <struct>: the interface has a single implementation, *struct
+			f := strings.Fields(r.text)
+			if len(f) != 2 {
+				return fmt.Errorf("%s:%d: malformed devirtualize clause", path, r.line)
+			}
+			c.Devirt[pkgPath+"."+f[0]] = pkgPath + "." + f[1]
+			cur = nil
 			continue
 		case "immutable":
 			// immutable [Cxx] T.f T.g ... constructors NewX, NewY
@@ -577,6 +587,14 @@ func (c *Contracts) lookup(key string) *FuncContract {
 	if fc := c.Funcs[key]; fc != nil {
 		return fc
 	}
+	if strings.HasPrefix(key, "fnparam:") {
+		// wildcard specs: fnparam:(*file).*.cb
+		for k, fc := range c.Funcs {
+			if strings.HasPrefix(k, "fnparam:") && strings.Contains(k, "*.") && wildMatch(k, key) {
+				return fc
+			}
+		}
+	}
 	if g := stripTypeArgs(key); g != key {
 		return c.Funcs[g]
 	}
@@ -600,4 +618,13 @@ func (c *Contracts) immutableKey(k string) bool {
 	}
 	_, ok := c.Immutable[base]
 	return ok
+}
+
+// wildMatch: pattern with ".*." segments standing for any function name (incl. closures).
+func wildMatch(pat, key string) bool {
+	parts := strings.Split(pat, ".*.")
+	if len(parts) != 2 {
+		return false
+	}
+	return strings.HasPrefix(key, parts[0]+".") && strings.HasSuffix(key, "."+parts[1]) && len(key) > len(parts[0])+len(parts[1])+1
 }
